@@ -272,6 +272,7 @@ def check_main(pid, tier, budget=None, workers=None, seed=None):
     env = dict(os.environ, PYTHONHASHSEED="0", OMP_WAIT_POLICY="passive",
                PYTHONPATH=VERIF, NUMBA_NUM_THREADS=os.environ.get("NUMBA_NUM_THREADS", "4"),
                PYTHONDONTWRITEBYTECODE="1")
+    env.update(getattr(mod, "ENV", {}))
     procs = []
     for w in range(cfg["workers"]):
         outp = os.path.join(work, f"w{w}.json")
